@@ -1055,15 +1055,25 @@ class ValueList(Value):
             result.addItem(item)
         return result
 
+    def getPairs(self, target):
+        for entry in self.value:
+            if not entry.isList() or len(entry.value) < 2:
+                raise CklRuntimeError(
+                    ValueString("ERROR"),
+                    "Cannot convert to " + target
+                    + ": expected a list of pairs but found " + str(entry),
+                )
+        return self.value
+
     def asMap(self):
         result = ValueMap()
-        for entry in self.value:
+        for entry in self.getPairs("map"):
             result.addItem(entry.value[0], entry.value[1])
         return result
 
     def asObject(self):
         result = ValueObject()
-        for entry in self.value:
+        for entry in self.getPairs("object"):
             result.addItem(entry.value[0].asString().value, entry.value[1])
         return result
 
